@@ -97,30 +97,40 @@ struct Model {
     rho: Option<ReplicationFactor>,
     /// Nodes reported successful, never the local node.
     s: BTreeSet<u8>,
-    /// Number of success reports that the set semantics ignores (for diagnosis labels only).
-    local_ok_reports: usize,
-    dup_ok_reports: usize,
+    /// Every success report in order, local node and repetitions included. Used only to *label*
+    /// a wrong verdict (which departure from the set semantics would explain it), never to judge.
+    ok_reports: Vec<u8>,
     /// Last verdict seen together with the success set it was given for.
     last: Option<(bool, BTreeSet<u8>)>,
 }
 
 impl Model {
-    /// Label the cause of a wrong verdict by asking which *departure* from the model would explain it.
-    fn cause(&self, v: bool) -> &'static str {
+    /// Would the verdict be explained by counting reports instead of distinct non-local nodes?
+    fn explained_by(&self, v: bool, include_local: bool, with_repeats: bool) -> bool {
         let rho = self.rho.as_ref().unwrap();
-        let mut with_l = self.s.clone();
-        if self.local_ok_reports > 0 {
-            with_l.insert(L);
+        let mut nodes: Vec<u8> = self.ok_reports.iter().copied().filter(|n| include_local || *n != L).collect();
+        if !with_repeats {
+            nodes.sort();
+            nodes.dedup();
         }
-        let ok = |s: &BTreeSet<u8>, count: usize| {
-            let (c, d) = readings(&self.t, rho, s, count);
-            v == c || v == d
+        let pref = nodes.iter().filter(|n| self.t.contains(n)).count();
+        let all_pref = pref >= self.t.len();
+        let r = match rho.upper_bound() {
+            Some(u) => nodes.len() >= u,
+            None => nodes.len() >= rho.lower_bound(),
         };
-        if self.local_ok_reports > 0 && ok(&with_l, with_l.len()) {
+        let c = (self.t.is_empty() || all_pref) && r;
+        let d = (!self.t.is_empty() && all_pref) || r;
+        v == c || v == d
+    }
+
+    /// Label the cause of a wrong verdict.
+    fn cause(&self, v: bool) -> &'static str {
+        if self.explained_by(v, true, false) {
             "local-node-counted"
-        } else if self.dup_ok_reports > 0 && ok(&self.s, self.s.len() + self.dup_ok_reports) {
+        } else if self.explained_by(v, false, true) {
             "repeated-result-counted-twice"
-        } else if self.local_ok_reports + self.dup_ok_reports > 0 && ok(&with_l, with_l.len() + self.dup_ok_reports + self.local_ok_reports.saturating_sub(1)) {
+        } else if self.explained_by(v, true, true) {
             "local-node-and-repeats-counted"
         } else {
             "unexplained"
@@ -230,6 +240,7 @@ impl System for ASys {
                         self.m.rho = Some(*a.target().replicas());
                         // Nodes the configuration declares already synced are synced (never the local node).
                         self.m.s = (1..4u8).filter(|i| synced & (1 << i) != 0).collect();
+                        self.m.ok_reports = self.m.s.iter().copied().collect();
                         self.real = Some(a);
                         self.handout_check(&mut vs);
                         StepOut { violations: vs, outcome: "announcer:new:Ok".into(), dead: false }
@@ -241,8 +252,8 @@ impl System for ASys {
                 let before = a.progress();
                 let cf = a.synced_with(nid(n), std::time::Duration::from_secs(1));
                 let after = a.progress();
+                self.m.ok_reports.push(n);
                 if n == L {
-                    self.m.local_ok_reports += 1;
                     if (before.preferred(), before.synced(), before.unsynced()) != (after.preferred(), after.synced(), after.unsynced()) {
                         vs.push(Violation::new(
                             "C25/announcer/local-node-counted/progress",
@@ -295,7 +306,7 @@ impl System for ASys {
     }
 
     fn canon(&self) -> Vec<u8> {
-        format!("{:?}|{:?}|{}|{}", self.real, self.m.last, self.m.local_ok_reports.min(1), self.started).into_bytes()
+        format!("{:?}|{:?}|{}|{}|{:?}", self.real, self.m.last, self.m.ok_reports.contains(&L), self.started, self.m.s).into_bytes()
     }
 }
 
@@ -351,10 +362,9 @@ impl FSys {
     /// Record a result in the model; returns whether it is for the local node.
     fn record(&mut self, n: u8, ok: bool) {
         if ok {
-            if n == L {
-                self.m.local_ok_reports += 1;
-            } else if !self.m.s.insert(n) {
-                self.m.dup_ok_reports += 1;
+            self.m.ok_reports.push(n);
+            if n != L {
+                self.m.s.insert(n);
             }
         }
         self.has_result.insert(n);
@@ -490,7 +500,7 @@ impl System for FSys {
     }
 
     fn canon(&self) -> Vec<u8> {
-        format!("{:?}|{:?}|{}", self.real, self.m.last, self.started).into_bytes()
+        format!("{:?}|{:?}|{}|{:?}|{:?}|{:?}", self.real, self.m.last, self.started, self.has_result, self.m.s, self.m.ok_reports).into_bytes()
     }
 }
 
@@ -525,21 +535,41 @@ fn merge<E>(acc: &mut Option<Result_<E>>, r: Result_<E>) {
     }
 }
 
+struct FetcherRun {
+    name: &'static str,
+    mask_bits: u8,
+    nodes: Vec<u8>,
+    rep_max: u8,
+    /// Events after the configuration event.
+    depth: usize,
+    complete_failed: bool,
+}
+
+fn f_configs(run: &FetcherRun, seeds: Option<u8>) -> Vec<FEv> {
+    let mut v = vec![];
+    for s in 0..(1u8 << run.mask_bits) {
+        if seeds.is_some_and(|x| x != s) {
+            continue;
+        }
+        for e in 0..(1u8 << run.mask_bits) {
+            for r in reps(run.rep_max) {
+                v.push(FEv::FetcherConfig { seeds: s, extra_candidates: e, replicas: r });
+            }
+        }
+    }
+    v
+}
+
 fn main() {
     let ctx = Ctx::from_env("C25", "model_checking");
     let thorough = ctx.tier == mcx::Tier::Thorough;
 
-    // Universe per tier. Masks range over {L,a,b,c} (thorough) or {L,a,b} (quick); `u` is never in a
-    // configuration. Replication factors up to 3 / 2.
-    // The announcer is cheap enough for the full universe in both tiers.
-    let mask_bits: u8 = if thorough { 4 } else { 3 };
-    let nodes: Vec<u8> = if thorough { vec![0, 1, 2, 3, 4] } else { vec![0, 1, 2, 4] };
-    let rep_list = reps(if thorough { 3 } else { 2 });
-    let masks: Vec<u8> = (0..(1u8 << mask_bits)).collect();
+    // Announcer: cheap enough for the full space in both tiers: every (preferred, synced, unsynced)
+    // triple of subsets of {L,a,b,c}, every replication factor up to 3, five events over {L,a,b,c,u}.
     let a_nodes: Vec<u8> = vec![0, 1, 2, 3, 4];
     let a_masks: Vec<u8> = (0..16u8).collect();
     let a_reps = reps(3);
-
+    let a_depth = 1 + 5;
     let a_configs = |pref: Option<u8>| -> Vec<AEv> {
         let mut v = vec![];
         for &p in &a_masks {
@@ -556,59 +586,62 @@ fn main() {
         }
         v
     };
-    let f_configs = |seeds: Option<u8>| -> Vec<FEv> {
-        let mut v = vec![];
-        for &s in &masks {
-            if seeds.is_some_and(|x| x != s) {
-                continue;
-            }
-            for &e in &masks {
-                for &r in &rep_list {
-                    v.push(FEv::FetcherConfig { seeds: s, extra_candidates: e, replicas: r });
-                }
-            }
-        }
-        v
-    };
+
+    // Fetcher: the state space grows ~14x per event, so depth and universe are traded off:
+    //   small  = configurable nodes {L,a,b}, universe {L,a,b,u}, replication factors <= 2, 4 events;
+    //   large  = configurable nodes {L,a,b,c}, universe {L,a,b,c,u}, replication factors <= 3, 3 events.
+    let mut f_runs = vec![FetcherRun { name: "small-universe", mask_bits: 3, nodes: vec![0, 1, 2, 4], rep_max: 2, depth: 4, complete_failed: thorough }];
+    if thorough {
+        f_runs.push(FetcherRun { name: "large-universe", mask_bits: 4, nodes: vec![0, 1, 2, 3, 4], rep_max: 3, depth: 3, complete_failed: true });
+    }
 
     if let Some(w) = ctx.replay_witness() {
         // Replay menus are irrelevant (the history names its own configuration).
         let h = w.get("history").cloned().unwrap_or(Value::Null);
         if serde_json::from_value::<Vec<AEv>>(h.clone()).is_ok() {
-            let sp = ASpace { configs: std::sync::Arc::new(vec![]), nodes: nodes.clone() };
+            let sp = ASpace { configs: std::sync::Arc::new(vec![]), nodes: a_nodes.clone() };
             ctx.finish_replay(explore::replay::<ASys>("C25", move || ASys::new(sp.clone()), &w));
         }
-        let sp = FSpace { configs: std::sync::Arc::new(vec![]), nodes: nodes.clone(), complete_failed: true };
+        let sp = FSpace { configs: std::sync::Arc::new(vec![]), nodes: a_nodes.clone(), complete_failed: true };
         ctx.finish_replay(explore::replay::<FSys>("C25", move || FSys::new(sp.clone()), &w));
     }
-
-    // Depth counts the configuration event.
-    let (a_depth, f_depth) = (1 + 5, 1 + 4);
 
     // Announcer: one exploration per preferred-seed mask (bounds the state table).
     let mut a_acc: Option<Result_<AEv>> = None;
     for &p in &a_masks {
         let sp = ASpace { configs: std::sync::Arc::new(a_configs(Some(p))), nodes: a_nodes.clone() };
-        merge(&mut a_acc, explore::explore("C25", move || ASys::new(sp.clone()), Bounds::new(a_depth, 0).wall_secs(120)));
+        merge(&mut a_acc, explore::explore("C25", move || ASys::new(sp.clone()), Bounds::new(a_depth, 0).wall_secs(600)));
     }
     let a_res = a_acc.unwrap();
 
-    // Fetcher: one exploration per seed mask.
+    // Fetcher: one exploration per run and seed mask.
     let mut f_acc: Option<Result_<FEv>> = None;
-    for &s in &masks {
-        let sp = FSpace { configs: std::sync::Arc::new(f_configs(Some(s))), nodes: nodes.clone(), complete_failed: thorough };
-        merge(&mut f_acc, explore::explore("C25", move || FSys::new(sp.clone()), Bounds::new(f_depth, 0).wall_secs(240)));
+    let mut f_detail = serde_json::Map::new();
+    for run in &f_runs {
+        let mut acc: Option<Result_<FEv>> = None;
+        for s in 0..(1u8 << run.mask_bits) {
+            let sp = FSpace { configs: std::sync::Arc::new(f_configs(run, Some(s))), nodes: run.nodes.clone(), complete_failed: run.complete_failed };
+            merge(&mut acc, explore::explore("C25", move || FSys::new(sp.clone()), Bounds::new(1 + run.depth, 0).wall_secs(900)));
+        }
+        let r = acc.unwrap();
+        f_detail.insert(
+            run.name.into(),
+            json!({"states": r.states, "transitions": r.transitions, "completed_depth": r.completed_depth, "requested_depth": 1 + run.depth, "frontier_sizes": r.frontier_sizes, "configs": f_configs(run, None).len(),
+                   "universe": run.nodes.iter().map(|n| NAMES[*n as usize]).collect::<Vec<_>>(), "configurable_nodes": run.mask_bits,
+                   "replication_factors": reps(run.rep_max).iter().map(|r| format!("{r:?}")).collect::<Vec<_>>(), "fetch_complete_with_failed_result": run.complete_failed, "exhaustive": r.exhaustive}),
+        );
+        merge(&mut f_acc, r);
     }
     let f_res = f_acc.unwrap();
 
     let rule = "a history = one configuration event (announcer: every (preferred, synced, unsynced) triple of subsets of the configurable nodes x every replication factor; \
                 fetcher: every (seeds, extra candidates) pair of subsets x every replication factor) followed by up to D events over the node universe incl. the local node L and the \
                 never-configured node u (announcer: synced_with(n), timed_out, can_continue; fetcher: next_node, next_fetch, ready_to_fetch(n), fetch_complete(n, ok|failed), fetch_failed(n), finish); \
-                a state is the Debug rendering of the real object plus the last verdict; one exploration per preferred/seed mask, counts summed";
+                a state is the Debug rendering of the real object plus the model (success set, reports, last verdict); one exploration per preferred/seed mask, counts summed";
     let mut cov = f_res.coverage(rule);
     let a_cov = a_res.coverage(rule);
     // Top-level counters are the sums; per-machine detail below.
-    for k in ["states", "transitions", "traces_validated_against_impl", "events_executed_on_impl", "evaluations", "distinct_nontrivial", "violating_instances", "reexpanded_with_fewer_deviations"] {
+    for k in ["states", "transitions", "traces_validated_against_impl", "events_executed_on_impl", "evaluations", "distinct_nontrivial", "violating_instances", "reexpanded_with_fewer_deviations", "self_loop_transitions"] {
         let s = cov.get(k).and_then(Value::as_u64).unwrap_or(0) + a_cov.get(k).and_then(Value::as_u64).unwrap_or(0);
         cov.insert(k.into(), json!(s));
     }
@@ -622,16 +655,10 @@ fn main() {
     cov.insert("completed_depth".into(), json!(a_res.completed_depth.min(f_res.completed_depth)));
     cov.insert(
         "announcer".into(),
-        json!({"states": a_res.states, "transitions": a_res.transitions, "depth": a_res.completed_depth, "requested_depth": a_depth, "frontier_sizes": a_res.frontier_sizes, "configs": a_configs(None).len(), "samples": a_res.samples}),
+        json!({"states": a_res.states, "transitions": a_res.transitions, "completed_depth": a_res.completed_depth, "requested_depth": a_depth, "frontier_sizes": a_res.frontier_sizes, "configs": a_configs(None).len(),
+               "universe": ["L", "a", "b", "c", "u"], "configurable_nodes": 4, "replication_factors": a_reps.iter().map(|r| format!("{r:?}")).collect::<Vec<_>>(), "samples": a_res.samples}),
     );
-    cov.insert(
-        "fetcher".into(),
-        json!({"states": f_res.states, "transitions": f_res.transitions, "depth": f_res.completed_depth, "requested_depth": f_depth, "frontier_sizes": f_res.frontier_sizes, "configs": f_configs(None).len()}),
-    );
-    cov.insert(
-        "alphabet".into(),
-        json!({"announcer_universe": ["L", "a", "b", "c", "u"], "announcer_replication_factors": a_reps.iter().map(|r| format!("{r:?}")).collect::<Vec<_>>(), "universe": nodes.iter().map(|n| NAMES[*n as usize]).collect::<Vec<_>>(), "configurable_nodes": mask_bits, "replication_factors": rep_list.iter().map(|r| format!("{r:?}")).collect::<Vec<_>>(), "fetch_complete_with_failed_result": thorough}),
-    );
+    cov.insert("fetcher".into(), Value::Object(f_detail));
     let mut violations = f_res.violations;
     violations.merge(a_res.violations);
     ctx.finish(
